@@ -12,9 +12,12 @@ from .gen import Defn
 _tok = re.compile(r"\s*(\d+/\d+|\d+\.\d+|\d+|[A-Za-z_]\w*|\*\*|[-+*/()])")
 
 
-def parse_expanded(sy, text):
-    """sum of signed products  c*a*b**2/N ...  (no parentheses) -> normal form"""
+def parse_expanded(sy, text, atom_names=()):
+    """sum of signed products  c*a*b**2/N ...  (no parentheses) -> normal form; atom_names name the atom symbols
+    (in the order of sy.atoms) where the text uses them"""
     names = {n: j for j, n in enumerate(sy.names())}
+    for k, nm in enumerate(atom_names):
+        names[nm] = sy.idx_atom(k) - 1
     toks = _tok.findall(text)
     out = {}
     i = 0
@@ -55,9 +58,18 @@ def parse_expanded(sy, text):
     return out
 
 
-def _model(name, factory, states, params, rhs, theta, x0, tend, closed=False):
-    sy = Symbols(states, params)
-    procs = [{"kind": "ode", "st": i + 1, "eqn": parse_expanded(sy, r)} for i, r in enumerate(rhs)]
+def _model(name, factory, states, params, rhs, theta, x0, tend, closed=False, atoms=()):
+    """atoms: list of (name used in rhs, kind, argument text); a cosine atom must be followed by its sine partner"""
+    sy0 = Symbols(states, params)
+    n = sy0.n + len(atoms)
+    alist = []
+    for k, (nm, kind, arg) in enumerate(atoms):
+        a = {tuple(list(ex) + [0] * (n - len(ex))): c for ex, c in parse_expanded(sy0, arg).items()}
+        pair = (sy0.n + k + 2) if kind == "C" else (sy0.n + k) if kind == "S" else 0
+        alist.append({"kind": kind, "arg": a, "pair": pair})
+    sy = Symbols(states, params, [], alist)
+    anames = [a[0] for a in atoms]
+    procs = [{"kind": "ode", "st": i + 1, "eqn": parse_expanded(sy, r, anames)} for i, r in enumerate(rhs)]
     return {"name": name, "factory": factory, "defn": Defn(sy, [], procs), "theta": theta, "x0": x0, "tend": tend,
             "closed": closed}
 
@@ -90,6 +102,23 @@ def models():
         _model("vanDerPol", "vanDerPol", ["y", "x"], ["mu"],
                ["x", "mu*x - mu*y**2*x - y"],
                [F(3, 2)], [F(2), F(0)], 8),
+        _model("SEIR_Birth_Death", "SEIR_Birth_Death", ["S", "E", "I", "R", "N"], ["beta", "alpha", "gamma", "mu"],
+               ["-beta*S*I/N + mu*N - mu*S", "beta*S*I/N - alpha*E - mu*E", "alpha*E - gamma*I - mu*I", "gamma*I - mu*R",
+                "mu*N - mu*S - mu*E - mu*I - mu*R"],
+               [F(3), F(1, 2), F(1, 3), F(1, 10)], [F(9, 10), F(1, 20), F(1, 20), F(0), F(1)], 12),
+        _model("Lorenz", "Lorenz", ["x", "y", "z"], ["beta", "sigma", "rho"],
+               ["sigma*y - sigma*x", "x*rho - x*z - y", "x*y - beta*z"],
+               [F(8, 3), F(10), F(28)], [F(1), F(1), F(1)], F(3, 10)),
+        _model("SIS_Periodic", "SIS_Periodic", ["S", "I"], ["gamma", "beta0", "delta", "period", "N"],
+               ["-beta0*S*I/N + beta0*delta*cosT*S*I/N + gamma*I", "beta0*S*I/N - beta0*delta*cosT*S*I/N - gamma*I"],
+               [F(1, 5), F(1, 2), F(1, 5), F(10), F(1)], [F(9, 10), F(1, 10)], 15, closed=True,
+               atoms=[("cosT", "C", "628318/100000*t/period"), ("sinT", "S", "628318/100000*t/period")]),
+        _model("SEIR_Birth_Death_Periodic", "SEIR_Birth_Death_Periodic", ["S", "E", "I", "R", "N"],
+               ["beta0", "delta", "period", "alpha", "gamma", "mu"],
+               ["-beta0*S*I/N + beta0*delta*cosT*S*I/N + mu*N - mu*S", "beta0*S*I/N - beta0*delta*cosT*S*I/N - alpha*E - mu*E",
+                "alpha*E - gamma*I - mu*I", "gamma*I - mu*R", "mu*N - mu*S - mu*E - mu*I - mu*R"],
+               [F(3), F(1, 5), F(8), F(1, 2), F(1, 3), F(1, 10)], [F(9, 10), F(1, 20), F(1, 20), F(0), F(1)], 12,
+               atoms=[("cosT", "C", "628318/100000*t/period"), ("sinT", "S", "628318/100000*t/period")]),
         _model("Influenza_SLIARD", "Influenza_SLIARD", ["S", "L", "I", "A", "R", "D"],
                ["beta", "delta", "N", "kappa", "p", "epsilon", "alpha", "f"],
                ["-beta*S*I/N - beta*delta*S*A/N", "beta*S*I/N + beta*delta*S*A/N - kappa*L",
